@@ -2,11 +2,11 @@
 mathematical definition or fail (gcd lcm factorial & | xor ~ << >> round, and abs sign ceil floor trunc
 round on integers / decimals).  Sub-check: merged into C05 and C12 by the lead via common.merge_results."""
 import json, struct, time
-from . import common, gen
+from . import common, gen, tables_numfn, tables_arith
 
 PID = "C05num"
 PROPS = "props/C05num.v"
-MINE = ("model/NumFn.v", "proofs/NumFnProofs.v", "props/C05num.v", "extract/ExtractNumfn.v")
+MINE = ("model/NumFn.v", "proofs/NumFnProofs.v", "props/C05num.v", "extract/ExtractNumfn.v", "gen/TablesNumfn.v")
 
 INT_TYPES = {"i8": (8, "s"), "i16": (16, "s"), "i32": (32, "s"), "i64": (64, "s"),
              "u8": (8, "u"), "u16": (16, "u"), "u32": (32, "u"), "u64": (64, "u")}
@@ -20,6 +20,11 @@ BIN = {"gcd": ("gcd(a, b)", True, "same"), "lcm": ("lcm(a, b)", True, "same"),
        "bitand": ("a & b", False, "same"), "bitor": ("a | b", False, "same"), "xor": ("xor(a, b)", False, "same"),
        "shl": ("a << b", False, "i32"), "shr": ("a >> b", False, "i32")}
 FOPS = ("abs", "sign", "ceil", "floor", "trunc", "round")
+
+
+def style(tb, key):
+    """model variant letter for a source constant of gen/TablesNumfn.v: n = as first transcribed, c = repaired"""
+    return "c" if tb.get(key) == 0 else "n"
 
 
 def lo_hi(t):
@@ -169,7 +174,7 @@ def int_cells(vals):
     return ["I%d" % v for v in vals]
 
 
-def bin_jobs(rng, tier, mode):
+def bin_jobs(rng, tier, mode, tb):
     jobs = []
     n = 70 if tier == "quick" else 1500
     for fn, (expr, signed_only, bt) in BIN.items():
@@ -180,7 +185,7 @@ def bin_jobs(rng, tier, mode):
             if bits == 8 and bt == "same":
                 # all 65536 pairs, built inside the engine
                 j = Job("exh-%s-%s" % (fn, t), fn, "int", [("a", t), ("b", t)], expr, None,
-                        ["all8 %s %s %s" % (fn, mode, sg)])
+                        ["all8 %s %s %s %s" % (fn, style(tb, {"gcd": "gcd_native", "lcm": "lcm_native"}.get(fn, "")), mode, sg)])
                 if fn == "gcd":
                     pred_sql, pred_py = "a <> -128 and b <> -128", (lambda a, b: a != -128 and b != -128)
                 elif fn == "lcm":
@@ -218,9 +223,15 @@ def bin_jobs(rng, tier, mode):
                         a, b = max(lo, min(hi, (a % 4096) * g)), max(lo, min(hi, (b % 4096) * g))
                     pairs.add((a, b))
             pairs = sorted(pairs)
-            tb = "i32" if bt == "i32" else t
-            ml = ["%s %s %d %d %d" % (fn, mode if fn in ("gcd", "lcm") else sg, bits, a, b) for a, b in pairs]
-            jobs.append(Job("%s-%s" % (fn, t), fn, "int", [("a", t), ("b", tb)], expr,
+            tbt = "i32" if bt == "i32" else t
+            if fn in ("gcd", "lcm"):
+                head = "%s %s %s" % (fn, style(tb, fn + "_native"), mode)
+            elif fn == "shr":
+                head = "shr %s %s" % (style(tb, "shr_zero_fill"), sg)
+            else:
+                head = "%s %s" % (fn, sg)
+            ml = ["%s %d %d %d" % (head, bits, a, b) for a, b in pairs]
+            jobs.append(Job("%s-%s" % (fn, t), fn, "int", [("a", t), ("b", tbt)], expr,
                             [("I%d" % a, "I%d" % b) for a, b in pairs], ml))
     # ~a
     for t, (bits, sg) in INT_TYPES.items():
@@ -231,7 +242,7 @@ def bin_jobs(rng, tier, mode):
     # factorial: Int64 -> Int128
     vals = sorted(set(list(range(-3, 41)) + [I64MIN, I64MIN + 1, I64MAX, I64MAX - 1, 100, 1000, 1 << 32, -(1 << 40)]))
     jobs.append(Job("factorial", "factorial", "factorial", [("a", "i64")], "factorial(a)", [("I%d" % v,) for v in vals],
-                    ["factorial %d" % v for v in vals]))
+                    ["factorial %s %d" % (style(tb, "factorial_null"), v) for v in vals]))
     return jobs
 
 
@@ -255,7 +266,7 @@ def dec_val(rng, p, k):
     return max(-lim, min(lim, x))
 
 
-def round_jobs(rng, tier, mode):
+def round_jobs(rng, tier, mode, tb):
     jobs = []
     nv = 8 if tier == "quick" else 60
     types = ROUND_TYPES if tier != "quick" else rng.shuffle(ROUND_TYPES)[:6] + [(18, 18), (10, 4)]
@@ -273,9 +284,9 @@ def round_jobs(rng, tier, mode):
             k = max(0, s - min(n_eff, s))
             vals = sorted(set(dec_val(rng, p, min(k, 40)) for _ in range(nv)))
             expr = "round(a)" if nd is None else "round(a, %d)" % nd
-            ml = ["round %s %d %d %d %d %d" % (mode, kd, p, s, n_eff, v) for v in vals]
+            ml = ["round %s %s %d %d %d %d %d" % (style(tb, "d2d_scale_sub_native"), mode, kd, p, s, n_eff, v) for v in vals]
             j = Job("round-%d-%d-%s" % (p, s, "x" if nd is None else str(nd)), "round", "round", [("a", t)], expr,
-                    [("D%d/%d/%d" % (v, p, s),) for v in vals], ml, {"p": p, "s": s, "n": nd})
+                    [("D%d/%d/%d" % (v, p, s),) for v in vals], ml, {"p": p, "s": s, "n": nd, "native_sub": tb.get("d2d_scale_sub_native") != 0})
             j.bind_level = True
             jobs.append(j)
     return jobs
@@ -338,7 +349,7 @@ def classify(job, tup, impl, spec):
         if not (-128 <= n <= 127):
             return "round-digits-outside-i8" if impl == "err" else None
         diff = s - min(n, s)
-        if diff > 127:
+        if diff > 127 and job.info.get("native_sub", True):
             return "round-scale-difference-overflows-i8" if impl in ("panic", "err") else None
         if diff > maxp:
             return "round-rescale-factor-unrepresentable" if impl == "err" else None
@@ -596,7 +607,19 @@ def run_jobs(jobs, profile, gbin, gmodel, rng, tier, stats):
     return viol, known
 
 # ---------------------------------------------------------------- comparisons across integer types
-def stage_cmp(rng, tier, gbin, gmodel, stats):
+def cmp_class(ta, tb, a, b, got):
+    """findings/C05num.json compare-u64-signed-via-float64: UInt64 against a signed integer type is compared after casting
+    both sides to Float64; recognised when both magnitudes reach 2^53 and the engine's answers are those of the rounded floats"""
+    if "u64" not in (ta, tb) or INT_TYPES[ta if tb == "u64" else tb][1] != "s" or ta == tb:
+        return None
+    if abs(a) < (1 << 53) or abs(b) < (1 << 53):
+        return None
+    fa, fb = float(a), float(b)
+    want = "".join("1" if x else "0" for x in (fa < fb, fa <= fb, fa == fb, fa != fb, fa >= fb, fa > fb))
+    return "compare-u64-signed-via-float64" if got == want else None
+
+
+def stage_cmp(rng, tier, gbin, gmodel, stats, known):
     """a < b ... a > b for operands of two (different) integer types against the comparison of the integers"""
     names = list(INT_TYPES)
     combos = [(x, y) for x in names for y in names if x != y]
@@ -609,6 +632,9 @@ def stage_cmp(rng, tier, gbin, gmodel, stats):
         vb = sorted(set(gen.int_pool(INT_TYPES[tb][0] // 8, INT_TYPES[tb][1] == "s") + [rng_int(rng, tb) for _ in range(4)]))
         if tier == "quick":
             va, vb = va[:3] + rng.shuffle(va[3:])[:9], vb[:3] + rng.shuffle(vb[3:])[:9]
+        for t_, vs in ((ta, va), (tb, vb)):
+            if INT_TYPES[t_][0] == 64:      # neighbours beyond 2^53: equal as Float64, different as integers
+                vs += [v for v in ((1 << 53) + 1, (1 << 53), (1 << 63) - 1, (1 << 63) - 2) if v not in vs]
         stmts = [gen.create_table("x", [("a", ta)]), gen.create_table("y", [("b", tb)])] + \
             insert_rows("x", [("a", ta)], [["I%d" % v] for v in va]) + insert_rows("y", [("b", tb)], [["I%d" % v] for v in vb]) + \
             ["select a, b, %s from x, y" % ", ".join("a %s b" % o for o in ops)]
@@ -638,16 +664,28 @@ def stage_cmp(rng, tier, gbin, gmodel, stats):
             stats["distinct"].add(("cmp", ta, tb, want.get((a, b))))
             if got != want.get((a, b)):
                 k = [i for i in range(6) if got[i] != (want.get((a, b)) or "??????")[i]][0]
-                viol.append({"kind": "comparison", "types": [ta, tb], "args": [a, b], "operator": ops[k], "engine": got, "definition": want.get((a, b)),
-                             "stmts": ["select %s %s %s" % (gen.sql_lit(ta, "I%d" % a), ops[k], gen.sql_lit(tb, "I%d" % b))]})
+                info = {"kind": "comparison", "types": [ta, tb], "args": [a, b], "operator": ops[k], "engine": got, "definition": want.get((a, b)),
+                        "stmts": ["select %s %s %s" % (gen.sql_lit(ta, "I%d" % a), ops[k], gen.sql_lit(tb, "I%d" % b))]}
+                cls = cmp_class(ta, tb, a, b, got)
+                if cls:
+                    kk = known.setdefault(cls, {"count": 0, "example": info})
+                    kk["count"] += 1
+                else:
+                    viol.append(info)
         cells = o2[1][0]
         for i, ((a, b), w) in enumerate(zip(lit, wlit)):
             got = "".join("1" if c == "B1" else "0" if c == "B0" else "?" for c in cells[6 * i:6 * i + 6])
             stats["evaluations"] += 6
             if got != w:
                 k = [x for x in range(6) if got[x] != w[x]][0]
-                viol.append({"kind": "comparison", "context": "literal", "types": [ta, tb], "args": [a, b], "operator": ops[k], "engine": got, "definition": w,
-                             "stmts": ["select %s %s %s" % (gen.sql_lit(ta, "I%d" % a), ops[k], gen.sql_lit(tb, "I%d" % b))]})
+                info = {"kind": "comparison", "context": "literal", "types": [ta, tb], "args": [a, b], "operator": ops[k], "engine": got, "definition": w,
+                        "stmts": ["select %s %s %s" % (gen.sql_lit(ta, "I%d" % a), ops[k], gen.sql_lit(tb, "I%d" % b))]}
+                cls = cmp_class(ta, tb, a, b, got)
+                if cls:
+                    kk = known.setdefault(cls, {"count": 0, "example": info})
+                    kk["count"] += 1
+                else:
+                    viol.append(info)
     return viol
 
 
@@ -656,6 +694,9 @@ def run(ctx):
     rng = common.Rng(ctx["seed"])
     tier = ctx["tier"]
     out = {"violations": [], "known": [], "assumptions": []}
+    tb = tables_numfn.regenerate()
+    tables_arith.regenerate()      # proofs/NumFnProofs.v builds on proofs/DecimalProofs.v, which reads gen/TablesArith.v
+    missing_consts = [k for k, v in tb.items() if v is None]
     profiles = ("dev",) if tier == "quick" else ("dev", "relfast")
     bins = {pf: common.build_harness(profile=pf, bin="gverif")[0] for pf in profiles}
     pr = common.coq_props(PROPS)
@@ -663,7 +704,7 @@ def run(ctx):
     audit = common.audit_sources(mine)
     obligations = pr["declared"]
     bad_assum = common.check_assumptions(pr) if pr["ok"] else []
-    proof_broken = (not pr["ok"]) or bool(bad_assum) or bool(audit)
+    proof_broken = (not pr["ok"]) or bool(bad_assum) or bool(audit) or bool(missing_consts)
     discharged = 0 if proof_broken else len(obligations)
     gmodel = common.build_ocaml("numfn")
     stats = {"evaluations": 0, "distinct": set(), "batch_statements": 0}
@@ -671,7 +712,7 @@ def run(ctx):
     for profile in profiles:
         prng = common.Rng(ctx["seed"] * 7919 + (1 if profile == "dev" else 2))
         mode = PROFILE_MODE[profile]
-        jobs = bin_jobs(prng, tier, mode) + round_jobs(prng, tier, mode) + float_jobs(prng, tier)
+        jobs = bin_jobs(prng, tier, mode, tb) + round_jobs(prng, tier, mode, tb) + float_jobs(prng, tier)
         if profile != "dev":
             # release adds only what depends on overflow checks: gcd / lcm / round
             jobs = [j for j in jobs if j.fn in ("gcd", "lcm") or j.kind == "round"]
@@ -681,7 +722,7 @@ def run(ctx):
             e = known.setdefault(fid, {"count": 0, "example": d["example"]})
             e["count"] += d["count"]
         per_profile[profile] = {"jobs": len(jobs), "tuples": sum(len(j.tuples or []) for j in jobs)}
-    viol += stage_cmp(rng, tier, bins["dev"], gmodel, stats)
+    viol += stage_cmp(rng, tier, bins["dev"], gmodel, stats, known)
     listed = {e["id"]: e for e in common.known_findings()["known"] if e.get("property") == PID}
     for fid in sorted(known):
         d = known[fid]
@@ -701,7 +742,8 @@ def run(ctx):
     if proof_broken and not out["violations"]:
         out["violations"].append({"what": "theorem(s) in %s no longer check and the correspondence runs found no failing input" % PROPS,
                                   "no_input": True, "replay": {"failed_at": pr.get("failed_at"), "log_tail": pr["log"][-1500:] if not pr["ok"] else "",
-                                                               "assumption_problems": bad_assum, "audit": audit}})
+                                                               "assumption_problems": bad_assum, "audit": audit,
+                                                               "source_matches_no_transcribed_variant": missing_consts, "tables": tb}})
     out["coverage"] = {
         "obligations": len(obligations), "discharged": discharged,
         "checker_cmd": "cd coq && make props/C05num.vo (Print Assumptions parsed; forbidden-construct audit over the numfn files)",
@@ -724,7 +766,7 @@ def run(ctx):
         "profiles": per_profile, "batch_statements": stats["batch_statements"],
         "known_classes_reproduced": {k: v["count"] for k, v in known.items()},
         "known_classes_not_reproduced": sorted(fid for fid in listed if fid not in known),
-        "exhaustive": False,
+        "source_variants": tb, "exhaustive": False,
     }
     out["assumptions"] = ["Int128/UInt128 have no SQL spelling: the 128-bit instances of the theorems are proofs only (factorial's Int128 result and Decimal128 exercise i128)",
                           "text -> integer/decimal casts deliver the intended operands (operands are read back as row keys in the exhaustive statements)",
